@@ -153,18 +153,21 @@ def encTextW (c : WCfg) (parent : Option Name) (s : Bytes) (st : WSt) : Except E
 /-- `wbxml_fill_header`: the header bytes; adding the textual public identifier changes the table. -/
 def fillHeaderW (c : WCfg) (st : WSt) : Bytes × WSt :=
   let ver : UInt8 := UInt8.ofNat c.version
-  let pubId := c.lang.pub.wbxmlId
+  -- no charset field in a WBXML 1.0 header
+  let csField : Bytes := if c.version == 0 then [] else [0x6A]
+  -- an anonymous document says "unknown"
+  let pubId := if c.anonymous then 1 else c.lang.pub.wbxmlId
   let pid : Option Bytes :=
     if (c.textualPublicId || pubId == 1) && !c.anonymous then c.lang.pub.xmlId else none
   match pid with
   | some p =>
     if c.useStrtbl then
       let (st, idx) := strtblAdd st p none
-      ([ver, 0x00] ++ mbEncode idx ++ [0x6A] ++ mbEncode st.strtblLen ++ strtblBytes st.strtbl, st)
+      ([ver, 0x00] ++ mbEncode idx ++ csField ++ mbEncode st.strtblLen ++ strtblBytes st.strtbl, st)
     else
-      ([ver, 0x00] ++ mbEncode 0 ++ [0x6A] ++ mbEncode (p.length + 1) ++ p ++ [0], st)
+      ([ver, 0x00] ++ mbEncode 0 ++ csField ++ mbEncode (p.length + 1) ++ p ++ [0], st)
   | none =>
-    ([ver] ++ mbEncode pubId ++ [0x6A] ++ mbEncode st.strtblLen ++
+    ([ver] ++ mbEncode pubId ++ csField ++ mbEncode st.strtblLen ++
       (if c.useStrtbl then strtblBytes st.strtbl else []), st)
 
 /-- `wbxml_build_result` (batch mode). -/
